@@ -209,7 +209,17 @@ CHECKS = {
         'exported expression objects and the behaviour.',
    note=TB + 'partial: spelling variants at the character level live in the meta-grammar text and are decided by differential runs; nested choices flatten with | but nest with Choice(): compared by behaviour.',
    technique='Coq proof on an elaboration model (sugar pairs, grouping table) + differential comparison of exported expression objects across spellings',
-   ref='DESIGN.md §6 C19'),
+   ref='DESIGN.md §6 C19'), 'C20': dict(
+   text='Coq theorem on the namespace model (Names.v): user identifiers never start with an underscore, the generator\'s registers and '
+        'temporaries (_<base><counter>) always do, hence no user identifier equals a temporary or a register '
+        '(C20_user_names_never_temporaries / _never_reserved; the shipped allocation <base><counter> is refuted by value2). That the '
+        'generator really allocates its names this way is checked on every run by a static scan (ast) of the emitted source; the '
+        'behavioural claim — renaming changes nothing else — by renaming runs: six grammar templates x one identifier at a time renamed '
+        'into every temporary look-alike, runtime scratch names, builtins, constructor names, plus fresh identifiers, compared with '
+        'the plain grammar on every input and with the Coq model.',
+   note=TB + 'partial: the theorem covers function-level names only. Known findings (each listed by identifier): locals named len/slice, rules named like builtins the runtime calls, templates named like expression constructors. The renaming-equivariance theorem of the expression model is not proved.',
+   technique='Coq hygiene theorem on a namespace model + static scan of emitted code + differential renaming runs',
+   ref='DESIGN.md §6 C20'),
 }
 
 PENDING = 'check under construction in this session (model/spec exist as design spikes under notes/spike; not yet wired into a registered check)'
